@@ -121,6 +121,8 @@ def make_models():
 
 
 def make_models_for(unit_name):
+    if '_find_circuit_after_extend' in unit_name:
+        return ExtendModels()
     if 'SingleObserver' in unit_name:
         from props import C03
         return C03.make_models_for(unit_name)
@@ -698,8 +700,66 @@ def unit_maybe_create(known):
     return run
 
 
+class ExtendModels(Models08):
+    def split_hook(self, ex, path, s, args, kw):
+        # 'EXTENDED <digits>': exactly two words (the reply text of EXTENDCIRCUIT; see the unit)
+        w = path.heap.get(('g', 'extend_reply_words'))
+        if not args and w is not None and isinstance(s, VStr) and s.t.eq(w[0]):
+            return [(path, ex.new_list(path, [VStr(w[1]), VStr(w[2])]))]
+        return Models08.split_hook(self, ex, path, s, args, kw)
+
+
+def unit_find_circuit_after_extend(known):
+    """build_circuit's reply handler: the circuit object of the id Tor answered with (created with every global listener if it
+    is new) is given exactly the synthetic update [id, 'EXTENDED'] - the state Tor's reply reports - and nothing else"""
+    def run(ctx):
+        _fns(ctx)
+        ctx.fn(TST, "TorState._find_circuit_after_extend")
+        import txtorcon.torstate as ts
+        ex = ctx.ex
+        path = ctx.new_path()
+        st = ex.new_inst(path, ts.TorState)
+        H = path.heap
+        idtext = z3.String('circuit_id_text')
+        ctx.input('circuit_id_text', VStr(idtext))
+        path.assume(z3.InRe(idtext, z3.Plus(z3.Range('0', '9'))))
+        path.assume(z3.StrToInt(idtext) >= 0)        # (a fact about digit strings the solver does not derive by itself)
+        word = z3.String('reply_word')
+        ctx.input('reply_word', VStr(word))
+        path.assume(z3.InRe(word, z3.Plus(z3.Range('A', 'Z'))))
+        x = z3.Concat(word, mk_str(' '), idtext)
+        H[('g', 'extend_reply_words')] = (x, word, idtext)
+        cid = z3.StrToInt(idtext)
+        tm = TMap(TInt(), TOpaque('circ'))
+        circuits = tm.fresh('circuits0')
+        H[('f', st.oid, 'circuits')] = circuits
+        is_known = z3.Not(TOpt(circuits.vt).is_none(z3.Select(circuits.t, cid)))
+        path.assume(is_known if known else z3.Not(is_known))
+        ls = [VOpaque('listener', 40)]
+        H[('f', st.oid, 'circuit_listeners')] = ex.new_list(path, ls)
+        H[('f', st.oid, 'circuit_factory')] = VOpaque('circuit_factory', 9)
+        ctx.cover('pre_satisfiable', path)
+        is_ext = word == mk_str('EXTENDED')
+        for p, r in _call(ctx, path, st, '_find_circuit_after_extend', [VStr(x)]):
+            ups = ctx.models.glog(p, 'updates')
+            if isinstance(r, Raise):
+                ctx.oblige('post.refused_only_for_another_reply_word_and_nothing_touched', p,
+                           zand(z3.Not(is_ext), B(len(ups) == 0 and not ctx.models.glog(p, 'created'))))
+                continue
+            ok = len(ups) == 1 and ups[0][0] is r
+            items = ex.iter_concrete(p, ups[0][1]) if ok else []
+            okargs = ok and len(items) == 2 and all(isinstance(i_, VStr) for i_ in items)
+            ctx.oblige('post.the_circuit_tor_answered_with_gets_exactly_one_update_id_EXTENDED', p,
+                       zand(is_ext, B(okargs), items[0].t == z3.IntToStr(cid), items[1].t == mk_str('EXTENDED')) if okargs else B(False),
+                       clause='exactly one notification per reported transition (the reply reports EXTENDED, nothing else)')
+            created = ctx.models.glog(p, 'created')
+            ctx.oblige('post.object_created_only_for_an_unknown_id', p, B((len(created) == 0) if known else (len(created) == 1 and created[0] is r)))
+    return run
+
+
 def units():
-    us = []
+    us = [('C08/TorState._find_circuit_after_extend@known', unit_find_circuit_after_extend(True)),
+          ('C08/TorState._find_circuit_after_extend@new', unit_find_circuit_after_extend(False))]
     for kind in ('circuit', 'stream'):
         for case in ('gone', 'pending', 'fresh'):
             us.append(('C08/%s.close@%s' % (kind.capitalize(), case), unit_close(kind, case)))
